@@ -20,7 +20,7 @@ import ast
 from ..affine import Lin, lin, offset_canon
 from ..helpers import ancestor_chains, term_lookup
 from ..facts import alternatives, atoms, call_is, cases, meth_is, simplify, slice_bounds, strip
-from ..model import AnalysisError
+from ..model import AnalysisError, norm
 from ..paths import find_loops
 from ..seq import Const, Field, Layouts, flatten, total
 from ..terms import FLIP, NEG, State, is_const, show, subterms, summarize
@@ -77,8 +77,71 @@ def v3_size_ok(N, V):
     return ok, Nl
 
 
+def buffer_ownership(ctx, R, DR):
+    """The reassembly buffer belongs to one connection and to its receive callback: it is per-instance (not one class-level object), and
+    nothing but the initialisers and data_received (with its helpers) stores or mutates it - a flush, a disconnect or a retry that clears
+    it drops the head of a packet whose tail is still to come."""
+    from ..helpers import with_helpers
+    from ..shared import MUTATORS, shared_mutable_state
+    prog = ctx.prog
+    RE = R if "." in R else R + ".e"
+    cb = ctx.fn(DR)
+    owners = with_helpers(prog, cb)
+    recv, data_p = cb.params[0], cb.params[1]
+    attr = None
+    for f in owners:
+        for n in ast.walk(f.node):
+            if isinstance(n, ast.AugAssign) and isinstance(n.op, ast.Add) and isinstance(n.target, ast.Attribute) and isinstance(n.target.value, ast.Name) \
+                    and n.target.value.id == f.params[0] and isinstance(n.value, ast.Name) and n.value.id == (data_p if f is cb else n.value.id):
+                attr = attr or n.target.attr
+            if isinstance(n, ast.Call) and isinstance(n.func, ast.Attribute) and n.func.attr == "extend" and isinstance(n.func.value, ast.Attribute) \
+                    and isinstance(n.func.value.value, ast.Name) and n.func.value.value.id == f.params[0] and len(n.args) == 1:
+                attr = attr or n.func.value.attr
+    if attr is None:
+        raise AnalysisError(f"{DR}: the attribute accumulating the received bytes was not found")
+    cls = cb.cls
+    family = {k.qual: k for k in prog.mro(cls) + prog.subclasses(cls) if k.module.name.startswith("msmart")}
+    hits = [(k, a, node, q) for k, a, node, q in shared_mutable_state(prog, list(family.values())) if a == attr]
+    ctx.count("buffer_owners")
+    ctx.ob(RE, DR, not hits, f"{attr} is a per-connection object (not one class-level buffer shared by every protocol instance)", func=DR, file=cb.module.rel,
+           construct=f"{attr} initialisation", node=hits[0][2] if hits else None,
+           fail=f"{attr} is one class-level object mutated in place: every connection appends to and frames packets from the same buffer "
+                "(a reconnect or a second device replays / corrupts another connection's packets)")
+    allowed = {f.qual for f in owners}
+    grew = True
+    while grew:          # (an override, anywhere in the family, of the callback or of one of its helpers plays the same role)
+        grew = False
+        names_ = {q.rsplit(".", 1)[-1] for q in allowed}
+        for k in family.values():
+            for m in k.methods.values():
+                if m.name in names_ and m.qual not in allowed:
+                    allowed |= {f.qual for f in with_helpers(prog, m)}
+                    grew = True
+    writers = []
+    for k in family.values():
+        for m in list(k.methods.values()) + list(k.props_set.values()):
+            if m.qual in allowed or m.name == "__init__" or not m.params:
+                continue
+            r_ = m.params[0]
+            for n in ast.walk(m.node):
+                tg = n.targets if isinstance(n, (ast.Assign, ast.Delete)) else [n.target] if isinstance(n, (ast.AugAssign, ast.AnnAssign)) else []
+                for t in tg:
+                    for x in ast.walk(t):
+                        if isinstance(x, ast.Attribute) and x.attr == attr and isinstance(x.value, ast.Name) and x.value.id == r_ \
+                                and (x is t or (isinstance(t, (ast.Tuple, ast.List)) and x in t.elts) or (isinstance(t, ast.Subscript) and t.value is x)):
+                            writers.append((m, n))
+                if isinstance(n, ast.Call) and isinstance(n.func, ast.Attribute) and n.func.attr in MUTATORS and isinstance(n.func.value, ast.Attribute) \
+                        and n.func.value.attr == attr and isinstance(n.func.value.value, ast.Name) and n.func.value.value.id == r_:
+                    writers.append((m, n))
+    ctx.ob(RE, DR, not writers, f"only the initialisers and {DR.split('.')[-1]} store or mutate {attr}", func=DR, file=cb.module.rel, construct=f"writers of {attr}",
+           node=writers[0][1] if writers else None,
+           fail=(f"{writers[0][0].qual} also writes {attr} (`{norm(writers[0][1])[:60]}`): bytes of a packet whose remainder has not arrived yet are dropped, "
+                 "the rest of that packet is then skipped as garbage") if writers else "")
+
+
 def check_reassembly(ctx, R, DR, MARKER, size_ok, size_desc, min_packet=8):
     """The inductive-step premises of a length-framed data_received (shared by C04 for V3 and C01.e for V2)."""
+    buffer_ownership(ctx, R, DR)
     prog = ctx.prog
     fn = ctx.fn(DR)
     file = fn.module.rel
